@@ -23,12 +23,20 @@ func suiteC10Instr(c *Ctx) {
 	for i := 0; i < n; i++ {
 		r := c.Rng.Fork()
 		cached := r.Bool()
+		sep := "."
+		if r.Chance(40) {
+			// the scope's own separator joins the call's name and "latency" (and the sub-scope's name), not the default one
+			sep = []string{"_", ":", "-", "__"}[r.Intn(4)]
+			c.Cov.Hit("exec.separator-" + sep)
+		}
+		worldSeparator = sep
 		w := newWorld(cached, 0, uint(r.Range(1, 4)), false)
+		worldSeparator = ""
 		var sc tally.Scope = w.root
 		prefix := ""
 		if r.Bool() {
 			sc = w.root.SubScope("svc")
-			prefix = "svc."
+			prefix = "svc" + sep
 		}
 		now := time.Unix(5000, 0)
 		restore := tally.VerifSetNow(func() time.Time { return now })
@@ -92,7 +100,7 @@ func suiteC10Instr(c *Ctx) {
 					}
 					switch e.Kind {
 					case "timer":
-						if nm == prefix+name+".latency" {
+						if nm == prefix+name+sep+"latency" {
 							lats = append(lats, e.I)
 						} else {
 							lats = append(lats, -777) // a timer event under a wrong name
@@ -194,6 +202,28 @@ func suiteC10Instr(c *Ctx) {
 		}
 		if nSamples != 1 {
 			c.Cov.Fail(Failure{Kind: "violated", Clause: "stopwatch-elapsed", Signature: "c10-stopwatch-histogram", Line: fmt.Sprintf("%d samples for one histogram stopwatch", nSamples)})
+		}
+		// a second stopwatch on the same histogram measures exactly a bound (1ms) after the one that landed above it: the
+		// elapsed time belongs to the bucket whose UPPER bound it is
+		{
+			swb := h.Start()
+			now = now.Add(time.Millisecond)
+			swb.Stop()
+			tally.VerifReportOnce(w.root)
+			nb := int64(0)
+			for _, e := range w.log().Take() {
+				if e.Kind == "hdur" || e.Kind == "samples" {
+					nb += e.I
+					if (e.Kind == "hdur" && int64(e.HiD) != int64(time.Millisecond)) || (e.Kind == "samples" && e.Idx != 0) {
+						c.Cov.Fail(Failure{Kind: "violated", Clause: "stopwatch-elapsed", Signature: "c10-stopwatch-histogram-on-a-bound",
+							Line:  "duration histogram {1ms, 1s}: a stopwatch of 500ms, pass, then a stopwatch of exactly 1ms, pass",
+							Reply: fmt.Sprintf("the elapsed 1ms was counted in bucket (%v,%v] (cached bucket index %d)", e.LoD, e.HiD, e.Idx)})
+					}
+				}
+			}
+			if nb != 1 {
+				c.Cov.Fail(Failure{Kind: "violated", Clause: "stopwatch-elapsed", Signature: "c10-stopwatch-histogram-on-a-bound", Line: fmt.Sprintf("%d samples for one histogram stopwatch", nb)})
+			}
 		}
 		// the wall clock is stepped between Start and Stop (the instants are what time.Now() returns then: monotonic
 		// readings d2 apart, wall readings off by the step): the elapsed time is d2
